@@ -217,13 +217,34 @@ def select(pid, lines, total, seed, horizon, limit_end=None):
     return [feats[i] for i in used]
 
 
+def _clip(txt, n=3000):
+    """Head and tail of a failure output: the head names the cause (panic / fatal error / timeout message), the tail the last goroutine."""
+    return txt if len(txt) <= 2 * n else txt[:n] + "\n[... %d characters left out ...]\n" % (len(txt) - 2 * n) + txt[-n:]
+
+
 def _run(pid, binp, inp, out, trace, par, budget, horizon, timeout):
-    rc, txt = vlib.go_run_test(binp, "TestReplay$", ["-in", inp, "-out", out, "-trace", trace, "-par", str(par), "-budget", str(budget),
-                                                    "-horizon", str(horizon), "-persistwait=%s" % ("true" if pid == "C11" else "false")], timeout=timeout)
-    if rc != 0 or not os.path.exists(out):
-        # a stop of the test binary is never a verdict here (global timeout, harness trouble)
-        raise vlib.Inconclusive("whole-program harness did not finish (rc %s):\n%s" % (rc, txt[-2500:]))
-    return vlib.load_result(out)
+    args = ["-in", inp, "-out", out, "-trace", trace, "-par", str(par), "-budget", str(budget), "-horizon", str(horizon),
+            "-persistwait=%s" % ("true" if pid == "C11" else "false")]
+    first = None
+    for attempt in (1, 2):
+        for f in (out, trace):
+            if os.path.exists(f):
+                os.remove(f)
+        rc, txt = vlib.go_run_test(binp, "TestReplay$", args, timeout=timeout)
+        if rc == 0 and os.path.exists(out):
+            if first is not None:
+                log("  whole program: the first run of the test binary ended with rc %s, the second one finished; output of the first:\n%s" % (first[0], _clip(first[1], 1500)))
+            return vlib.load_result(out)
+        log_path = os.path.join(vlib.OUT, pid, "appsys_failed_run_%d.txt" % attempt)
+        try:
+            open(log_path, "w").write(txt)
+        except OSError:
+            pass
+        if first is None:
+            first = (rc, txt)
+    # a stop of the test binary is never a verdict here (global timeout, harness trouble, runtime fatal error)
+    raise vlib.Inconclusive("whole-program harness did not finish twice (rc %s, then rc %s; full outputs in %s):\n--- first run ---\n%s\n--- second run ---\n%s" % (
+        first[0], rc, os.path.join(vlib.OUT, pid, "appsys_failed_run_*.txt"), _clip(first[1]), _clip(txt)))
 
 
 def _validate(pid, trace, name="trace_appsys"):
@@ -345,6 +366,7 @@ def run_app_system(pid, tier, v):
     return {
         "scenarios_replayed": cases,
         "scenarios_skipped_for_time": c.get("skipped", 0),
+        "scenarios_retried": c.get("scenarios_retried_after_start_failure", 0),
         "scenario_shapes_selected": shape,
         "steps": r["steps"],
         "instance_starts": c.get("op_start", 0), "clean_stops": c.get("op_stop", 0), "kills": c.get("op_kill", 0),
